@@ -185,6 +185,7 @@ pub fn run(ctx: &Ctx) -> Report {
                 }
             }
             Some("many-references") => many_references(&mut rep),
+            Some("capacity") => crate::props::c20::capacity_for("C08", crate::props::c20::which_of(w["limit"].as_str(), w["mode"].as_str()), &mut rep),
             Some("random") => run_random(w["seed"].as_u64().unwrap_or(ctx.seed), w["case"].as_u64().unwrap_or(0), w["n_ops"].as_u64().unwrap_or(30) as usize, &mut rep),
             _ => rep.inconclusive.push("unknown replay kind".into()),
         }
@@ -203,6 +204,13 @@ pub fn run(ctx: &Ctx) -> Report {
         }
         if shard == 1 % n && thorough {
             many_references(&mut rep);
+        }
+        // the saved file at the string-pool limits (last addressable entry in use; reference counts that only go down)
+        if shard == 2 % n {
+            crate::props::c20::capacity_for("C08", 1, &mut rep);
+        }
+        if shard == 3 % n {
+            crate::props::c20::capacity_for("C08", 3, &mut rep);
         }
         for case in (shard as u64..n_random).step_by(n) {
             run_random(seed, case, 12 + (case % 4) as usize * 10, &mut rep);
